@@ -203,7 +203,7 @@ Section Plain.
     - cbn [build_dtattr struct_tb tb_flag bind] in Hc.
       cbn [plain_data] in Hp. rewrite (debug_field_attrs_plain _ _ Hp) in Hc. cbn [bind] in Hc.
       inversion Hc; subst c; clear Hc.
-      destruct v as [| | | | | |vn xs| | | |]; try reflexivity.
+      destruct v as [| | | | | |vn xs| | | | |]; try reflexivity.
       destruct vn as [vn|]; [reflexivity|].
       cbn [debug_shape dc_variants find variant_is vc_variant vc_unit vc_fields vc_named_field
            effective_name dc_enum_name vc_name vc_ident dtattr_default dt_name dt_named_field
@@ -213,7 +213,7 @@ Section Plain.
       rewrite Es. exact (plain_fields_program (d_name d) fs xs Hwf Hne).
     - cbn [build_dtattr enum_tb tb_flag bind] in Hc. inv_bind_as Hc as vcs Hvcs.
       inversion Hc; subst c; clear Hc.
-      destruct v as [| | | | | |vn xs| | | |]; try reflexivity.
+      destruct v as [| | | | | |vn xs| | | | |]; try reflexivity.
       rewrite debug_shape_vshape. cbn [dc_variants].
       destruct vn as [va|].
       + refine (plain_variants_program _ va xs _ vs vcs Hvcs Hp Hwf). reflexivity.
